@@ -49,7 +49,8 @@ enum vloop_call {
 struct vloop_log_entry {
     enum vloop_call call;
     unsigned id;        /* pump id (unique per manager, allocation order, never reused) */
-    bool status;        /* `status` argument of real_start/stop/restart (false otherwise) */
+    bool status;        /* `status` argument of real_start/stop/restart; VLOOP_FREE: the
+                         * watcher was still active (a bug of the layers above); else false */
 };
 
 /* description of a live pump */
@@ -119,6 +120,11 @@ unsigned vloop_advance(struct upump_mgr *mgr, uint64_t ticks,
 size_t vloop_log(struct upump_mgr *mgr, const struct vloop_log_entry **entries_p);
 void vloop_log_clear(struct upump_mgr *mgr);
 const char *vloop_call_name(enum vloop_call call);
+
+/* Number of pumps that were freed while their back-end watcher was still
+ * active (upump_free's own upump_stop did not reach real_stop): a real loop
+ * would later invoke their call-back on freed memory.  vloop never does. */
+unsigned vloop_leaked_active(struct upump_mgr *mgr);
 
 /* True if a live pump is active with status == true (what makes a real loop
  * keep running: upump_mgr_run() returns UBASE_ERR_BUSY in that case). */
